@@ -125,7 +125,16 @@ class Mirror:
             self.had_removal = True
 
 
-def gen_history(rng, nkeys, nops, inst, keys=None):
+def sort_key(k):
+    # String::operator< on char (signed), a proper prefix is less
+    return tuple((b + 128) % 256 for b in k)
+
+
+def gen_history(rng, nkeys, nops, inst, keys):
+    """keys: the alphabet (byte tuples).  The mirror follows the specification exactly
+    (incl. Sort), so that positional operations (RemoveIndex, shrinking Resize) are only
+    emitted in states that cannot hold removed slots: elsewhere their effect depends on
+    when growth dropped the tombstones, i.e. on the capacity policy."""
     mir = Mirror()
     ops = []
     hv = inst != 2
@@ -134,7 +143,7 @@ def gen_history(rng, nkeys, nops, inst, keys=None):
     def val():
         return rng.randrange(1, 60) if hv else 0
 
-    weights = [("I", 22), ("G", 8 if hv else 0), ("O", 4 if hv else 0), ("J", 4), ("R", 14), ("X", 5), ("N", 8), ("Z", 3),
+    weights = [("I", 22), ("G", 8 if hv else 0), ("O", 4 if hv else 0), ("J", 4), ("R", 12), ("X", 5), ("Y", 4), ("N", 8), ("Z", 3),
                ("E", 3), ("C", 3), ("L", 1), ("T", 1), ("V", 1), ("S", 4), ("P", 3), ("M", 2), ("U", 6)]
     names = [w[0] for w in weights]
     ws = [w[1] for w in weights]
@@ -160,14 +169,20 @@ def gen_history(rng, nkeys, nops, inst, keys=None):
             ops.append("R:%d:%d" % (k, rng.randrange(2)))
             mir.remove(k)
         elif c == "X":
+            if not mir.clean:
+                ops.append("C")
+                mir.clean = True
             i = rng.randrange(0, len(mir.l) + 2)
             ops.append("X:%d" % i)
-            if mir.clean and i < len(mir.l):
+            if i < len(mir.l):
                 del mir.l[i]
                 mir.clean = False
                 mir.had_removal = True
-            else:
-                mir.clean = mir.clean
+        elif c == "Y":
+            if mir.l and rng.random() < 0.8:
+                k = rng.choice(mir.l)[0]
+            ops.append("Y:%d" % k)
+            mir.remove(k)
         elif c == "N":
             a = rng.choice(mir.l)[0] if (mir.l and rng.random() < 0.8) else k
             b = rng.randrange(nkeys)
@@ -176,10 +191,10 @@ def gen_history(rng, nkeys, nops, inst, keys=None):
             if i >= 0 and mir.find(b) < 0:
                 mir.l[i][0] = b
         elif c == "Z":
-            if not mir.clean and rng.random() < 0.6:
+            n = rng.choice([0, 1, 2, len(mir.l), len(mir.l) + 1, max(0, len(mir.l) - 1), rng.randrange(0, 20)])
+            if not mir.clean and mir.l and n != 0:
                 ops.append("C")
                 mir.clean = True
-            n = rng.choice([0, 1, 2, len(mir.l), len(mir.l) + 1, max(0, len(mir.l) - 1), rng.randrange(0, 20)])
             ops.append("Z:%d" % n)
             mir.l = mir.l[:n]
             mir.clean = True
@@ -201,8 +216,9 @@ def gen_history(rng, nkeys, nops, inst, keys=None):
             mir.l = []
             mir.clean = True
         elif c == "S":
-            ops.append("S:%d" % rng.randrange(2))
-            # order after a sort is the specification's business; the mirror only needs membership
+            asc = rng.randrange(2)
+            ops.append("S:%d" % asc)
+            mir.l.sort(key=lambda kv: sort_key(keys[kv[0]]), reverse=(asc == 0))
         elif c == "P":
             ops.append("P")
             mir.clean = True
@@ -225,7 +241,7 @@ def gen_history(rng, nkeys, nops, inst, keys=None):
                                        ".".join(str(a) for a in rm) if rm else "_"))
             for (a, v) in src.l:
                 mir.put(a, v)
-    return ops, mir.removed_then_inserted
+    return ops[:nops], mir.removed_then_inserted
 
 
 def make_case(inst, keys, ops):
@@ -239,13 +255,13 @@ def gen_cases(rng, tier, groups, hashes, boost=1):
     if tier == "quick":
         plan = [(5000 * boost, 60)]
     else:
-        plan = [(12000 * boost, 60), (1500 * boost, 400)]
+        plan = [(36000 * boost, 60), (5000 * boost, 400)]
     for (count, maxops) in plan:
         for _ in range(count):
             inst = rng.choice([0, 0, 1, 2])
             keys = pick_alphabet(rng, groups, hashes)
             nops = rng.choice([maxops, maxops, rng.randrange(1, maxops + 1), rng.randrange(1, 16)])
-            ops, nt = gen_history(rng, len(keys), nops, inst)
+            ops, nt = gen_history(rng, len(keys), nops, inst, keys)
             cases.append(make_case(inst, keys, ops))
             dist["inst%d" % inst] += 1
             dist[pick_alphabet.last] += 1
@@ -330,7 +346,14 @@ def check(tier):
     boost = 1 if proof_ok else 4
     cases, dist, nontrivial = gen_cases(rng, tier, groups, hashes, boost)
     cases = corpus_cases() + cases
-    r = vlib.differential(COMP, exe, cases, eq=hash_eq)
+    # pilot: a defect that hits almost every history (or crashes the driver) is reported from a
+    # small batch instead of re-running thousands of crashing cases one by one
+    npilot = len(corpus_cases()) + 150
+    r = vlib.differential(COMP, exe, cases[:npilot], eq=hash_eq)
+    if not (r.oracle_fail or r.crashes):
+        r = vlib.differential(COMP, exe, cases, eq=hash_eq)
+    else:
+        cases = cases[:npilot]
 
     def report_failures(r):
         nonlocal found_input
@@ -403,8 +426,8 @@ def check(tier):
     rep.assumptions = [
         "the theorems are about coq/HtabModel.v; the C++ is tied by the differential run reported here (finite)",
         "Char_T = char (signed), SizeT = 32 bit, sizes below 2^31",
-        "Sort: requires the D3 fix of StringUtils::IsLess/IsGreater (a proper prefix is less); the order relation itself is C15's subject",
-        "RemoveIndex / shrinking Resize in a state that may hold removed slots have no position-free specification: the oracle accepts any result consistent with 'one entry / a suffix removed'",
+        "Sort: requires the D3 fix of StringUtils::IsLess/IsGreater (a proper prefix is less); the model's key comparison key_ltb is that fixed order on signed chars (proved a strict total order); its agreement with the C++ operator< is tied by this run and is C15's subject",
+        "RemoveIndex / shrinking Resize in a state that may hold removed slots have no position-free specification (positions depend on when growth dropped the tombstones): the generator issues them only after Compress, the oracle would accept any result consistent with 'one entry / a suffix removed'; RemoveIndex(GetKeyIndex(k)) is exercised in all states",
     ]
     return rep.finish()
 
